@@ -27,6 +27,20 @@ def run(ctx):
         second_store = bool(meta.get("second_store"))
         edge = im.edges().get((str(store.line_number), str(load.line_number)))
         ctx.count("expected_same" if meta.get("same_location") else "expected_diff")
+        if meta.get("symbolic"):
+            ctx.count("symbolic_displacement")
+        if meta.get("store_writeback"):
+            ctx.count("store_with_writeback")
+        if meta.get("register_edge_to_load"):
+            # the store wrote its base register back and the load reads that very register: the two lines are connected
+            # through the register whatever the addresses are -- the graph cannot show the memory dependency on its own
+            ctx.count("not_judged_register_edge_store_to_load")
+            continue
+        if meta.get("wb_base_rewritten") and meta.get("same_location"):
+            # the written-back base is overwritten before the load: the implementation ends its scan there (memStop);
+            # no dependency is demanded (none may be reported for different locations, judged below)
+            ctx.count("not_demanded_writeback_base_rewritten")
+            continue
         if meta.get("same_location") and not second_store:
             distinct.add(repr((im.isa, im.lines)))
             if edge is None:
